@@ -1046,10 +1046,8 @@ func ruleUDecode(c *engine.Context) *report.Rule {
 			}
 		}
 	}
-	if len(decoders) == 0 {
-		r.InfraFail("anchor unresolved: JSON string decoder helper")
-		return r
-	}
+	// without a decoder helper the quote helpers must call encoding/json themselves (checked below:
+	// fewer than two helpers that return decoder output is an open obligation)
 	for fn := range decoders {
 		// the decoder itself returns, on every path, the variable the library decoder filled
 		r.Instances++
@@ -1175,7 +1173,22 @@ func ruleUDecode(c *engine.Context) *report.Rule {
 				}
 			}
 		}
-		if len(dcalls) == 0 {
+		// or the library decoder is called right here: what it filled is the decoded text
+		directTarget := map[*ssa.Alloc]*ssa.Call{}
+		for _, b := range fn.Blocks {
+			for _, ins := range b.Instrs {
+				if call, ok := ins.(*ssa.Call); ok {
+					if sc := call.Call.StaticCallee(); sc != nil && sc.Pkg != nil && sc.Pkg.Pkg.Path() == "encoding/json" && sc.Name() == "Unmarshal" && len(call.Call.Args) == 2 {
+						if mi, ok := call.Call.Args[1].(*ssa.MakeInterface); ok {
+							if al, ok := mi.X.(*ssa.Alloc); ok && isStr(al.Type().(*types.Pointer).Elem()) {
+								directTarget[al] = call
+							}
+						}
+					}
+				}
+			}
+		}
+		if len(dcalls) == 0 && len(directTarget) == 0 {
 			continue
 		}
 		helpers++
@@ -1198,6 +1211,13 @@ func ruleUDecode(c *engine.Context) *report.Rule {
 					// the shared tail of the quote helpers: a function that itself returns only decoder output
 					if sc := x.Call.StaticCallee(); sc != nil && decodedOnly[sc] {
 						return true
+					}
+				case *ssa.UnOp:
+					// the variable encoding/json filled, read after the call, nothing else stored into it
+					if al, isAl := x.X.(*ssa.Alloc); isAl && x.Op == token.MUL {
+						if uc := directTarget[al]; uc != nil && instrDominates(uc, x) && storesTo(al) == 0 {
+							return true
+						}
 					}
 				case *ssa.Phi:
 					for _, e := range x.Edges {
@@ -1632,7 +1652,56 @@ func ruleNVgSum(c *engine.Context) *report.Rule {
 						}
 					}
 				default:
-					// a chain head assembled in this function: the pass must have run on it before
+					// a chain head assembled in this function: the pass must have run on it before —
+					// as a call of the pass, or written out here (a loop that walks the chain from this
+					// head, reads each step's flag and raises the head's)
+					for _, l := range cfgutil.Loops(fn) {
+						if l.Blocks[st.Block()] || !(l.Header == st.Block() || l.Header.Dominates(st.Block())) {
+							continue
+						}
+						for _, hi := range l.Header.Instrs {
+							ph, isPhi := hi.(*ssa.Phi)
+							if !isPhi || !types.Identical(ph.Type(), p.Roles.NodeIface) {
+								continue
+							}
+							starts, walks, reads, sets := false, false, false, false
+							for i, e := range ph.Edges {
+								if !l.Blocks[l.Header.Preds[i]] {
+									if e == v {
+										starts = true
+									}
+								} else if call, ok := e.(*ssa.Call); ok && call.Call.IsInvoke() && call.Call.Method.Name() == nextGetter && call.Call.Value == ssa.Value(ph) {
+									walks = true
+								}
+							}
+							// the loop's blocks and the blocks entered straight from them (a branch that
+							// raises the flag and leaves the loop is not part of the natural loop)
+							near := map[*ssa.BasicBlock]bool{}
+							for bb := range l.Blocks {
+								near[bb] = true
+								for _, sx := range bb.Succs {
+									near[sx] = true
+								}
+							}
+							for bb := range near {
+								for _, y := range bb.Instrs {
+									call, ok := y.(*ssa.Call)
+									if !ok || !call.Call.IsInvoke() {
+										continue
+									}
+									if call.Call.Method.Name() == getName && call.Call.Value == ssa.Value(ph) {
+										reads = true
+									}
+									if call.Call.Method.Name() == setName && call.Call.Value == v {
+										sets = true
+									}
+								}
+							}
+							if starts && walks && reads && sets {
+								how = "summarised by a walk over the chain written out just before"
+							}
+						}
+					}
 					for _, bb := range fn.Blocks {
 						for _, y := range bb.Instrs {
 							call, ok := y.(*ssa.Call)
